@@ -67,7 +67,14 @@ def run_alloc(w, sym, amount, ratios, disperse, mode, st=None, sym2=None):
     case = {'unit': sym, 'amount': str(x), 'ratios': list(ratios),
             'disperse': disperse, 'mode': mode}
     try:
-        portions, rem = q.allocate(robj, disperse)
+        # dispersing the rounding error is the documented default: asked for
+        # by leaving the flag out (every other ratio list also by keyword)
+        if disperse and len(ratios) % 2:
+            portions, rem = q.allocate(robj)
+        elif disperse:
+            portions, rem = q.allocate(robj, disperse_rounding_error=True)
+        else:
+            portions, rem = q.allocate(robj, disperse)
     except Exception as exc:
         return [('C06:raises', f"{case}: {type(exc).__name__}: {exc}")]
     if st is not None:
